@@ -310,7 +310,8 @@ def run_slice(job: dict) -> dict:
         R = count_requests(base)
         for s in scn["sims"]:
             sid = s["sid"]
-            kinds = ["exit", "raise", "close"] if sid in remote else ["raise"]
+            kinds = ["exit", "raise", "close"] if sid in remote else \
+                ["raise", "raise_TypeError", "raise_ValueError", "raise_KeyError", "raise_ConnectionError"]
             for r in range(R.get(sid, 0)):
                 for how in kinds:
                     for rep in range(job["repeat"]):
@@ -335,7 +336,8 @@ def run_slice(job: dict) -> dict:
                 C["hang_not_reproduced_inconclusive"] += 1
                 continue
         C["faults_fired"] += 1
-        C["kind_" + (how if sid in remote else "local_" + how)] += 1
+        C["kind_" + (how if sid in remote else "local_raise")] += 1
+        C["how_" + how] += 1
         C["request_index_%d" % r] += 1
         C["survivors_checked"] += len(scn["sims"]) - 1
         C["processes_checked"] += len(out["proc_states"])
@@ -399,7 +401,8 @@ def evidence(m, tier, seed):
         "rule": "catalogue of 4 (thorough: 5) scenarios with 2-4 simulators, remote (real processes over TCP) and "
                 "in-process mixes; a fault-free run counts the requests R_S each simulator receives (setup_done, "
                 "steps, get_data); then EVERY (simulator, request index < R_S, kind) with kind in {process exit, "
-                "exception in handler, connection abort} for remote and {exception} for in-process simulators is "
+                "exception in handler, connection abort} for remote and exceptions {RuntimeError, TypeError, ValueError, "
+                "KeyError, ConnectionError} for in-process simulators is "
                 "run once (thorough: 3 times): run() must end (watchdog 40 s; a hang counts only if it reproduces "
                 "twice), survivors finalized exactly once, no simulator process left after a grace period, loop "
                 "closed, no task pending at loop.close(), no unclosed socket/transport ResourceWarning, no request "
